@@ -563,9 +563,14 @@ func (s *session) handleLogon(msg *Message) error {
 			}
 		}
 
-		s.log.OnEvent("Responding to logon request")
-		if err := s.sendLogonInReplyTo(resetSeqNumFlag.Bool(), msg); err != nil {
-			return err
+		// In an established session a Logon carrying ResetSeqNumFlag=Y while sentReset is set is the peer's
+		// answer to the reset Logon we sent ourselves (ResetSeqTime): it is not a logon request and must not
+		// be answered again.
+		if !(resetSeqNumFlag.Bool() && s.sentReset && s.IsLoggedOn()) {
+			s.log.OnEvent("Responding to logon request")
+			if err := s.sendLogonInReplyTo(resetSeqNumFlag.Bool(), msg); err != nil {
+				return err
+			}
 		}
 	}
 	s.sentReset = false
